@@ -16,7 +16,7 @@ def cbytes(b: bytes) -> str:
     return "(List.concat [" + ";".join(_cbytes(b[i:i + 64]) for i in range(0, len(b), 64)) + "])"
 
 ID = "C36"
-QUICK_N = 2600
+QUICK_N = 1800
 THOROUGH_N = 52000
 SHARD = 150
 RULE = ("kinds: dumps(value tree) 14%, load(bytes) 24%, pop(bytes) 20%, FlowReader.stream over small records with a "
@@ -38,7 +38,7 @@ ASSUMPTIONS = ["ints have at most 4300 decimal digits (sys.int_info.default_max_
                "str values contain no lone surrogates (their UTF-8 encoding exists); a state with such a str makes dumps raise UnicodeEncodeError",
                "the HAR branch of FlowReader.stream (input starting with '{' or BOM '{') is not modelled beyond the branch condition",
                "from_state never raises ValueError('not a tnetstring: empty file')"]
-TRANSLATORS = []
+TRANSLATORS = ["flowreader_except"]
 COQ_PRELUDE = "From MV Require Import Model.Tnet.\n"
 
 EXC_NAMES = ["RecursionError", "KeyError", "IndexError", "AttributeError", "AssertionError", "TypeError", "ValueError"]
